@@ -770,3 +770,221 @@ Proof.
       split; [exact W2|]. split; [eapply ext_trans; eauto|]. split; [unfold consistent; rewrite EO'; exact I2|].
       split; [unfold acct in *; pwl|]. right. split; [reflexivity|]. split; [exact EO'|]. eapply fails_left; eauto.
 Qed.
+
+(* ---------------------------------------------------------------- building blocks of the path operations *)
+(* state s, reached from s0, holds the blocks B on top of the frame F *)
+Definition st (s0 s : mstate) (B : list nat) (F : nat -> nat) : Prop := wf s /\ ext s0 s /\ over s B F.
+
+Lemma st_perm s0 s B B' F : st s0 s B F -> (forall x, cnt B x = cnt B' x) -> st s0 s B' F.
+Proof. intros (W & E & O) H. split; [exact W|]. split; [exact E|]. unfold over in *. pwl. Qed.
+
+Lemma st_rel s0 s s' R B F : st s0 s (R ++ B) F -> rel s s' R -> st s0 s' B F.
+Proof.
+  intros (W & E & O) Rl. drel Rl W1 E1 Q1 N1 H1. split; [exact W1|]. split; [eapply ext_trans; eauto|]. unfold over in *. pwl.
+Qed.
+
+Lemma seg_blocks_nil : seg_blocks [] = [].
+Proof. reflexivity. Qed.
+
+Lemma st_drop owned w s0 s B F : st s0 s (seg_blocks [w] ++ B) F -> sfld owned w -> st s0 (drop_seg owned w s) B F.
+Proof.
+  intros S Fw. eapply st_rel; [exact S|]. rewrite drop_seg_eq. destruct S as (W & E & O).
+  apply free_seg_rel; [exact W|exact Fw|]. unfold over in O. pwl.
+Qed.
+
+Lemma st_blank owned w s0 s B F : st s0 s (seg_blocks [w] ++ B) F -> sfld owned w ->
+  st s0 (snd (blank_seg owned w s)) (seg_blocks [fst (blank_seg owned w s)] ++ B) F /\ sfld owned (fst (blank_seg owned w s)).
+Proof.
+  intros S Fw. pose proof S as (W & E & O).
+  assert (Hl : forall x, cnt (blk_list (sg_blk w)) x <= L s x).
+  { unfold over in O. intros x. specialize (O x). rewrite seg_blocks_cons in O. cn. lia. }
+  destruct (blank_seg_rel owned w s W Fw Hl) as (Rl & Fw' & Eb). split; [|exact Fw'].
+  rewrite Eb. eapply st_rel; [|exact Rl]. eapply st_perm; [exact S|]. intros x. rewrite seg_blocks_cons, seg_blocks_nil. cn. lia.
+Qed.
+
+Lemma st_alloc c sz s0 s B F : st s0 s B F ->
+  match alloc c sz s with
+  | (Some id, s') => st s0 s' (id :: B) F
+  | (None, s') => st s0 s' B F /\ fails_between s0 s'
+  end.
+Proof.
+  intros (W & E & O). destruct (alloc c sz s) as [[id|] s'] eqn:EA.
+  - destruct (alloc_some _ _ _ _ _ W EA) as (W' & E' & HL & _). split; [exact W'|]. split; [eapply ext_trans; eauto|].
+    unfold over in *. intros x. pw x. cn. lia.
+  - destruct (alloc_none _ _ _ _ W EA) as (W' & E' & HL & _). split.
+    + split; [exact W'|]. split; [eapply ext_trans; eauto|]. unfold over in *. pwl.
+    + eapply fails_right; eauto. eapply alloc_none_fails; eauto.
+Qed.
+
+Lemma st_refl s B F : wf s -> over s B F -> st s s B F.
+Proof. intros W O. split; [exact W|]. split; [apply ext_refl|exact O]. Qed.
+
+Lemma st_trans s0 s1 s B F : ext s0 s1 -> st s1 s B F -> st s0 s B F.
+Proof. intros E (W & E' & O). split; [exact W|]. split; [eapply ext_trans; eauto|exact O]. Qed.
+Lemma st_restart s0 s B F : st s0 s B F -> st s s B F.
+Proof. intros (W & _ & O). apply st_refl; assumption. Qed.
+Lemma fails_ext s0 s1 s2 : fails_between s0 s1 -> ext s1 s2 -> fails_between s0 s2.
+Proof. intros (n & Hn & Hf) E. exists n. split; [|exact Hf]. pose proof (ext_req _ _ E). lia. Qed.
+
+Definition blank (sg : mseg) : mseg := {| sg_text := []; sg_blk := None; sg_node := sg_node sg |}.
+Lemma blank_seg_fst owned sg s : fst (blank_seg owned sg s) = blank sg.
+Proof. reflexivity. Qed.
+Lemma sfld_new owned n : sfld owned {| sg_text := []; sg_blk := None; sg_node := n |}.
+Proof. unfold sfld. cbn. rewrite andb_false_r. reflexivity. Qed.
+
+(* uriRemoveDotSegmentsEx: the walk releases what it drops and allocates at most the trailing
+   empty segment; when that allocation fails the list left behind still holds exactly its blocks *)
+Lemma rds_walk_spec relative host abs owned rest : forall kept s0 s F,
+  st s0 s (seg_blocks kept ++ seg_blocks rest) F -> Forall (sfld owned) kept -> Forall (sfld owned) rest ->
+  match rds_walk_m relative host abs owned kept rest s with
+  | (ok, segs, s') => st s0 s' (seg_blocks segs) F /\ Forall (sfld owned) segs /\ (ok = false -> fails_between s0 s')
+  end.
+Proof.
+  induction rest as [|w nxt IH]; intros kept s0 s F S Fk Fr; cbn [rds_walk_m].
+  - split; [|split; [apply Forall_rev; exact Fk|discriminate]].
+    eapply st_perm; [exact S|]. intros x. cn. lia.
+  - inversion Fr as [|? ? Fw Fn]; subst.
+    assert (Keep : match rds_walk_m relative host abs owned (w :: kept) nxt s with
+                   | (ok, segs, s') => st s0 s' (seg_blocks segs) F /\ Forall (sfld owned) segs /\ (ok = false -> fails_between s0 s') end).
+    { apply IH; [|constructor; assumption|exact Fn]. eapply st_perm; [exact S|]. intros x. cn. lia. }
+    assert (Sw : st s0 s (seg_blocks [w] ++ seg_blocks kept ++ seg_blocks nxt) F).
+    { eapply st_perm; [exact S|]. intros x. cn. lia. }
+    destruct (seg_dot (sg_text w)).
+    + (* "." *)
+      destruct (relative && match kept with [] => true | _ :: _ => false end
+                && match nxt with [] => false | n1 :: _ => has_colon (sg_text n1) end); [exact Keep|].
+      destruct nxt as [|n1 nr].
+      * destruct kept as [|k1 kr].
+        -- destruct host.
+           ++ destruct (st_blank owned w s0 s _ F Sw Fw) as (Sb & Fb).
+              destruct (blank_seg owned w s) as [w' s'] eqn:EB. cbn [fst snd] in *.
+              split; [|split; [constructor; [exact Fb|constructor]|discriminate]].
+              eapply st_perm; [exact Sb|]. intros x. cn. lia.
+           ++ split; [|split; [constructor|discriminate]].
+              eapply st_perm; [apply (st_drop owned w s0 s _ F Sw Fw)|]. intros x. cn. lia.
+        -- destruct (st_blank owned w s0 s _ F Sw Fw) as (Sb & Fb).
+           destruct (blank_seg owned w s) as [w' s'] eqn:EB. cbn [fst snd] in *.
+           split; [|split; [apply Forall_rev; constructor; assumption|discriminate]].
+           eapply st_perm; [exact Sb|]. intros x. cn. lia.
+      * apply IH; [|exact Fk|exact Fn]. apply (st_drop owned w s0 s _ F Sw Fw).
+    + destruct (seg_dotdot (sg_text w)); [|exact Keep].
+      (* ".." *)
+      destruct (relative && match kept with [] => true | p :: _ => seg_dotdot (sg_text p) end); [exact Keep|].
+      destruct kept as [|p [|pp kk]].
+      * (* nothing kept *)
+        destruct nxt as [|n1 nr].
+        -- destruct abs.
+           ++ split; [|split; [constructor|discriminate]].
+              eapply st_perm; [apply (st_drop owned w s0 s _ F Sw Fw)|]. intros x. cn. lia.
+           ++ destruct (st_blank owned w s0 s _ F Sw Fw) as (Sb & Fb).
+              destruct (blank_seg owned w s) as [w' s'] eqn:EB. cbn [fst snd] in *.
+              split; [|split; [constructor; [exact Fb|constructor]|discriminate]].
+              eapply st_perm; [exact Sb|]. intros x. cn. lia.
+        -- apply IH; [|constructor|exact Fn]. apply (st_drop owned w s0 s _ F Sw Fw).
+      * (* one kept *)
+        inversion Fk as [|? ? Fp _]; subst.
+        destruct nxt as [|n1 nr].
+        -- destruct abs.
+           ++ split; [|split; [constructor|discriminate]].
+              apply (st_drop owned p s0 _ [] F); [|exact Fp].
+              eapply st_perm; [apply (st_drop owned w s0 s _ F Sw Fw)|]. intros x. cn. lia.
+           ++ destruct (st_blank owned w s0 s _ F Sw Fw) as (Sb & Fb).
+              destruct (blank_seg owned w s) as [w' s'] eqn:EB. cbn [fst snd] in *.
+              split; [|split; [constructor; [exact Fb|constructor]|discriminate]].
+              apply (st_drop owned p s0 _ _ F); [|exact Fp].
+              eapply st_perm; [exact Sb|]. intros x. cn. lia.
+        -- apply IH; [|constructor|exact Fn].
+           apply (st_drop owned p s0 _ _ F); [|exact Fp].
+           eapply st_perm; [apply (st_drop owned w s0 s _ F Sw Fw)|]. intros x. cn. lia.
+      * (* two or more kept *)
+        inversion Fk as [|? ? Fp Fk']; subst.
+        destruct nxt as [|n1 nr].
+        -- pose proof (st_alloc true SEG_SIZE s0 s _ F Sw) as Al.
+           destruct (alloc true SEG_SIZE s) as [[id|] s1].
+           ++ split; [|split; [apply Forall_rev; constructor; [apply sfld_new|exact Fk']|discriminate]].
+              apply (st_drop owned p s0 _ _ F); [|exact Fp].
+              eapply st_perm; [apply (st_drop owned w s0 s1 (seg_blocks [p] ++ id :: seg_blocks (pp :: kk)) F); [|exact Fw]|].
+              ** eapply st_perm; [exact Al|]. intros x. cn. lia.
+              ** intros x. cn. cbn [sg_node sg_blk blk_list]. cn. lia.
+           ++ destruct Al as (Al & Fl).
+              assert (S2 : st s1 (drop_seg owned p (drop_seg owned w s1)) (seg_blocks (pp :: kk)) F).
+              { apply (st_drop owned p s1 _ _ F); [|exact Fp].
+                eapply st_perm; [apply (st_drop owned w s1 s1 (seg_blocks [p] ++ seg_blocks (pp :: kk)) F); [|exact Fw]|].
+                - eapply st_perm; [exact (st_restart _ _ _ _ Al)|]. intros x. cn. lia.
+                - intros x. cn. lia. }
+              split; [|split; [apply Forall_rev; exact Fk'|intros _]].
+              ** eapply st_perm; [apply (st_trans s0 s1); [apply Al|exact S2]|]. intros x. cn. lia.
+              ** eapply fails_ext; [exact Fl|apply S2].
+        -- apply IH; [|exact Fk'|exact Fn].
+           apply (st_drop owned p s0 _ _ F); [|exact Fp].
+           eapply st_perm; [apply (st_drop owned w s0 s _ F Sw Fw)|]. intros x. cn. lia.
+Qed.
+
+Lemma set_m_segs_self m : set_m_segs (m_segs m) m = m.
+Proof. destruct m; reflexivity. Qed.
+
+Lemma rds_m_spec relative owned m s0 s F :
+  st s0 s (seg_blocks (m_segs m)) F -> Forall (sfld owned) (m_segs m) ->
+  match remove_dot_segments_m relative owned m s with
+  | (ok, m', s') => exists segs', m' = set_m_segs segs' m /\ st s0 s' (seg_blocks segs') F /\ Forall (sfld owned) segs'
+                                  /\ (ok = false -> fails_between s0 s')
+  end.
+Proof.
+  intros S Fs. unfold remove_dot_segments_m. destruct (m_segs m) as [|sg r] eqn:ES.
+  - exists []. rewrite <- ES, set_m_segs_self. split; [reflexivity|]. rewrite ES. split; [exact S|]. split; [constructor|discriminate].
+  - pose proof (rds_walk_spec relative (m_host_set m) (m_abs m) owned (sg :: r) [] s0 s F) as R.
+    destruct (rds_walk_m relative (m_host_set m) (m_abs m) owned [] (sg :: r) s) as [[ok segs'] s'].
+    exists segs'. split; [reflexivity|]. apply R; [exact S|constructor|exact Fs].
+Qed.
+
+(* ---------------------------------------------------------------- the destination of uriAddBaseUri / uriRemoveBaseUri *)
+(* a borrowed object under construction: it holds node and address blocks only, on top of the ledger s0 *)
+Definition dst (s0 s : mstate) (d : muri) : Prop :=
+  st s0 s (muri_blocks d) (L s0) /\ inv false 0 d /\ m_owner d = false.
+
+Lemma inv_false_blk d : inv false 0 d ->
+  t_blk (m_scheme d) = None /\ t_blk (m_userInfo d) = None /\ t_blk (m_hostText d) = None /\ t_blk (m_ipFuture d) = None
+  /\ t_blk (m_portText d) = None /\ t_blk (m_query d) = None /\ t_blk (m_fragment d) = None /\ Forall (sfld false) (m_segs d).
+Proof.
+  intros [c1 c2 c3 c4 c5 c6 c7 c8]. unfold fld in *. cbn [orb andb] in *.
+  assert (X : forall o : option nat, is_some o = false -> o = None) by (intros [?|]; [discriminate|reflexivity]).
+  repeat split; auto.
+  - destruct (t_val (m_ipFuture d)); [tauto|]. apply X. tauto.
+  - destruct (t_val (m_ipFuture d)); [|tauto]. apply X. tauto.
+Qed.
+
+Lemma inv_false_intro d :
+  t_blk (m_scheme d) = None -> t_blk (m_userInfo d) = None -> t_blk (m_hostText d) = None -> t_blk (m_ipFuture d) = None ->
+  t_blk (m_portText d) = None -> t_blk (m_query d) = None -> t_blk (m_fragment d) = None -> Forall (sfld false) (m_segs d) ->
+  inv false 0 d.
+Proof.
+  intros e1 e2 e3 e4 e5 e6 e7 Fs. split; unfold fld; cbn [orb andb]; rewrite ?e1, ?e2, ?e3, ?e4, ?e5, ?e6, ?e7; auto; try (intros; discriminate).
+  destruct (t_val (m_ipFuture d)); repeat split; auto; intros; discriminate.
+Qed.
+
+Lemma dst_empty s : wf s -> dst s s muri_empty.
+Proof.
+  intros W. split; [|split; [|reflexivity]].
+  - apply st_refl; [exact W|]. intros x. reflexivity.
+  - apply inv_false_intro; try reflexivity. constructor.
+Qed.
+
+(* replacing texts by borrowed ones moves no block *)
+Ltac dst_borrow :=
+  let S := fresh "S" in let I := fresh "I" in let O := fresh "O" in
+  intros (S & I & O);
+  pose proof (inv_false_blk _ I) as (e1 & e2 & e3 & e4 & e5 & e6 & e7 & Fs);
+  split; [|split; [apply inv_false_intro; msimpl; auto|exact O]];
+  eapply st_perm; [exact S|]; intros x; rewrite !muri_blocks_eq; msimpl; unfold borrow; cbn [t_blk];
+  rewrite ?e1, ?e2, ?e3, ?e4, ?e5, ?e6, ?e7; reflexivity.
+
+Lemma dst_scheme s0 s d t : dst s0 s d -> dst s0 s (set_m_scheme (borrow t) d).
+Proof. dst_borrow. Qed.
+Lemma dst_query s0 s d t : dst s0 s d -> dst s0 s (set_m_query (borrow t) d).
+Proof. dst_borrow. Qed.
+Lemma dst_fragment s0 s d t : dst s0 s d -> dst s0 s (set_m_fragment (borrow t) d).
+Proof. dst_borrow. Qed.
+Lemma dst_abs s0 s d v : dst s0 s d -> dst s0 s (set_m_abs v d).
+Proof. dst_borrow. Qed.
+
+End WithCsize.
